@@ -106,6 +106,12 @@ def addKey (U : Nat → Attrs) (c : Cont) (v : Nat) (key : Option Str) : Str :=
   | none, some k => if k.isEmpty then (U v).id else k
   | _, _ => (U v).id
 
+/-- step 1 of `add`: `if hasattr(self, "uid"): variant.parent = self` (a `Variants` container has no uid) -/
+def pre (s : State) (c : Cont) (v : Nat) : State :=
+  match c with
+  | some p => s.setParent v (some p)
+  | none => s
+
 /-- `VariantBase.add(self=c, variant=v, variant_id=key)` in the code's order:
 1. `if hasattr(self, "uid"): variant.parent = self`   (only a `Variant` has a uid; **before** any check)
 2. `variant.validate()`
@@ -113,9 +119,7 @@ def addKey (U : Nat → Attrs) (c : Cont) (v : Nat) (key : Option Str) : Str :=
 4. `if variant in self._get_all_parents(): raise ValueError`
 5. `new = self.variants.setdefault(variant_id, variant); if new != variant: raise ValueError` (identity comparison) -/
 def add (U : Nat → Attrs) (fuel : Nat) (s : State) (c : Cont) (v : Nat) (key : Option Str) : State × Except Err Unit :=
-  let s1 := match c with
-    | some p => s.setParent v (some p)
-    | none => s
+  let s1 := pre s c v
   match validate U s1 v with
   | .error e => (s1, .error e)
   | .ok () =>
